@@ -46,6 +46,7 @@ def Ty.packIdent (cx : Cx) : Ty → Bool
   | .any | .none | .bool | .int | .float | .str => true
   | .leaf k => cx.passLeaves.contains k
   | .union ts => identAll ts
+  | .opt t => t.packIdent cx
   | .coll .list t => cx.noCopyList && t.packIdent cx
   | .map .dict k t => cx.noCopyDict && k.packIdent cx && t.packIdent cx
   | _ => false
@@ -73,6 +74,7 @@ def pyCopy : V → R V
   | .coll .chainmap ms => .ok (.coll .chainmap ms)
   | .map .mproxy kvs => .ok (.map .dict kvs)
   | .map o kvs => .ok (.map o kvs)
+  | .leaf .bytearray c => .ok (.leaf .bytearray c)      -- bytearray has a copy method of its own
   | _ => raisePy .attributeError
 
 def attr (fs : List (String × V)) (n : String) : R V :=
